@@ -24,14 +24,23 @@ def design_one(ctx, v):
 
 
 def symptom(r):
+    """coarse, stable class of a rejected record (for the violation key)"""
     if r["kind"] == "script":
         if any(s["out"] == "wrong" for s in r["res"]):
             return "wrong-bytes-returned"
-        if r["res"] and r["res"][-1]["cache"] == "bad":
+        gone = False
+        for a, s in zip(r["script"], r["res"]):
+            gone = gone or a == "delrepo"
+            if a == "list" and gone and s["cache"] != "absent":
+                return "stale-copy-survives-list"
+        last = r["res"][-1] if r["res"] else {}
+        if last.get("cache") == "bad":
             return "corrupt-copy-not-replaced"
-        if any(s["cache"] != "absent" for s, a in zip(r["res"], r["script"]) if a == "list"):
-            return "stale-copy-survives-list"
-        return "load-of-damaged-copy-fails"
+        if last.get("cache") == "absent" and last.get("out") == "good":
+            return "damaged-copy-dropped-but-not-replaced"
+        if last.get("out") == "err":
+            return "load-of-damaged-copy-fails"
+        return "other"
     if any(l["out"] == "wrong" for l in r["loaders"]):
         return "wrong-bytes-returned"
     if r["final"] == "bad":
